@@ -29,7 +29,7 @@ struct bio_method_st {
 struct bio_st { bio_method_st const *method = nullptr; void *data = nullptr; int init = 0; int flags = 0; };
 struct ssl_method_st { int server; };
 struct ssl_ctx_st { int refs = 1; long mode = 0; };
-struct ssl_st { BIO *rbio = nullptr, *wbio = nullptr; int last_err = 0; bool init = false; };
+struct ssl_st { BIO *rbio = nullptr, *wbio = nullptr; int last_err = 0; bool init = false, server = false, started = false; };
 
 namespace fakessl {
 std::deque<std::vector<long long>> script;
@@ -50,6 +50,7 @@ static std::pair<long long, long long> engine(SSL *ssl, int call, char *rbuf, ch
 {
   (void)wbuf;
   vos::log(42, {call, static_cast<long long>(size)});
+  ssl->started = true;
   if(script.empty() || script.front().empty() || script.front()[0] != call) underrun();
   auto ev = script.front();
   script.pop_front();
@@ -132,7 +133,9 @@ SSL *SSL_new(SSL_CTX *ctx) { ++ctx->refs; auto *s = new ssl_st; (void)ctx; retur
 void SSL_free(SSL *s) { if(!s) return; delete s->rbio; if(s->wbio != s->rbio) delete s->wbio; delete s; }
 void SSL_set_bio(SSL *s, BIO *r, BIO *w) { s->rbio = r; s->wbio = w; S.tls_fds.insert(fakessl::fd_of(s)); }
 void SSL_set_connect_state(SSL *) {}
-void SSL_set_accept_state(SSL *) {}
+void SSL_set_accept_state(SSL *s) { s->server = true; }
+int SSL_in_before(const SSL *s) { return s->started ? 0 : 1; }
+int SSL_is_server(const SSL *s) { return s->server ? 1 : 0; }
 int SSL_is_init_finished(const SSL *s) { return s->init ? 1 : 0; }
 int SSL_get_error(const SSL *s, int) { return s->last_err; }
 
@@ -180,6 +183,13 @@ int SSL_write_ex(SSL *s, const void *buf, size_t num, size_t *written)
   if(err == SSL_ERROR_SSL || err == SSL_ERROR_SYSCALL || err == SSL_ERROR_ZERO_RETURN) {
     if(S.async_fds.count(fd) && !S.aq[fd].empty()) S.aq[fd].pop_front();     // the library fails this future
   }
+  return static_cast<int>(res);
+}
+
+int SSL_do_handshake(SSL *s)
+{
+  auto [res, err] = fakessl::engine(s, 4, nullptr, nullptr, 0);
+  (void)err;
   return static_cast<int>(res);
 }
 
